@@ -68,6 +68,13 @@ SCRIPTS = {
     'seeded': "from pedal import *\nfrom pedal.questions.setup import set_seed\nset_seed(7)\nset_pools(3)\ngently('seeded')\n",
     'partial': "from pedal import *\ngive_partial(.25)\ncompliment('nice', score='+10%')\ngently('partial')\n",
     'plain': "from pedal import *\ngently('You did a thing', label='thing')\n",
+    # arguments too long (or not literal enough) to be quoted in the feedback: pedal stores them under generated names
+    'long_args': ("from pedal import *\nassert_equal(call('add', list(range(100)), [float('inf')]), 3)\n"
+                  "assert_equal(call('add', 'x' * 300, 'y'), 3)\n"),
+    # two feedback classes of the same name (pedal ships such a pair) overridden in one script
+    'override_same_name': ("from pedal import *\nfrom pedal.source import feedbacks as sf\nfrom pedal.sandbox import feedbacks as bf\n"
+                           "sf.indentation_error.override(title='Check your spaces', message_template='Line {lineno} is not lined up.')\n"
+                           "bf.indentation_error.override(title='Sandbox spaces')\n"),
     'nothing': "from pedal import *\n",
 }
 SUBS = {
@@ -78,6 +85,7 @@ SUBS = {
     'sectioned': "x = 1\n##### Part 1\ndef add(a, b):\n    return a + b\nprint(len([1]))\n",
     'io': "def add(a, b):\n    return a + b\nname = input('n?')\nprint('hi', name, len(name))\n",
     'blank': "\n",
+    'indent': "def add(a, b):\n    return a + b\n  x = 1\n",
     'tifa': "def add(a, b):\n    return a + b\nprint(undefined_thing)\n",
     'modmutate': "import math\ndef add(a, b):\n    return a + b\nif add(0, 0):\n    math.pi = '3.14'\n",
     'moduse': "import math\ndef add(a, b):\n    return a + b\nradius = 2\nprint(math.pi + radius)\n",
@@ -216,7 +224,7 @@ def make_body(keys, length):
         mutators = {'override', 'override_template', 'override_tifa', 'override_source', 'suppress', 'suppress_label',
                     'formatter', 'mock', 'sections', 'sections_open', 'crash', 'group_crash', 'tifa_mod', 'hide',
                     'sandbox_attrs', 'pools', 'hook', 'max_score', 'override_base', 'override_assert', 'plots', 'inputs',
-                    'mock_module', 'allow', 'seeded', 'partial', 'sections_prologue'}
+                    'mock_module', 'allow', 'seeded', 'partial', 'sections_prologue', 'long_args', 'override_same_name'}
         if any(h[0] in mutators or (h[1] in ('modmutate', 'plot', 'rt_mut', 'strexit') or h[1][:4] in ('mut:', 'ann:')) for h in hist[:-1]):
             ctx.mark_nontrivial(repr(hist))
         # a submission graded twice in one history may be handed over as the same Submission object (what a
@@ -263,6 +271,9 @@ def phases(tier):
                for p in ('runtime', 'good', 'syntax')]
     envcore += [('max_score', p, 'gradescope') for p in ('good', 'runtime')]
     envcore += [('nothing', p, 'standard') for p in MODULE_SUBS] + [('assert', p, 'standard') for p in MODULE_SUBS]
+    envcore += [('long_args', p, 'standard') for p in ('good', 'wrong', 'runtime')]
+    envcore += [('override_same_name', 'good', 'standard'), ('override_same_name', 'indent', 'standard'),
+                ('nothing', 'indent', 'standard'), ('assert', 'indent', 'standard')]
     allg = gradings(tier)
     keys_pairs = core + envcore if tier == 'quick' else allg
     compute_references(sorted(set(keys_pairs)))
